@@ -1,5 +1,6 @@
 import Driver.Rns
 import Driver.Notif
+import Driver.Mint
 open Lean (Json)
 
 /-- Line protocol: one JSON step record per line on stdin; one verdict line per record on stdout:
@@ -15,6 +16,7 @@ def checkLine (line : String) : String :=
       match modName with
       | "rns" => Driver.Rns.check j
       | "notif" => Driver.Notif.check j
+      | "mint" => Driver.Mint.check j
       | "panic" => .ok (some s!"panic {(j.getObjValAs? String "where").toOption.getD ""}: {(j.getObjValAs? String "panic").toOption.getD ""}")
       | m => .error s!"unknown mod {m}"
     match res with
